@@ -2,9 +2,9 @@
    Vocabulary: [spec_*] is the table-free bit-by-bit CRC-32C and the arithmetic Snappy mask (Crc.v, SPEC);
    [crc32c_slice16], [summer_*], [writer_finish] model src/raw/crc32.rs, build.rs and the tail of
    raw::Builder::into_inner; [fst_new], [verify] model Fst::new / Fst::verify (Open.v). *)
-Require Import FstV.Base FstV.Crc FstV.Open FstV.proofs.CrcProofs FstV.proofs.OpenProofs.
+Require Import FstV.Base FstV.CodecSpec FstV.Fst FstV.Builder FstV.Crc FstV.Open FstV.proofs.CrcProofs FstV.proofs.OpenProofs.
+Require Import FstV.proofs.BuilderInv FstV.proofs.Closed FstV.proofs.BuiltVerifies.
 
-Notation bytes_ok l := (Forall (fun b : N => b < 256) l).
 
 (* the standard check value, for the specification and for the model of the code *)
 Theorem C08_check_value :
@@ -74,6 +74,55 @@ Theorem C08_corruption_never_certified : forall bs m i x,
   (exists m' e, fst_new (set_nth bs i x) = Ok m' /\ verify (set_nth bs i x) m' = Err e).
 Proof. exact corruption_never_certified. Qed.
 
+(* ---------- every FST produced by a builder passes verify() ----------
+   [build_map summer ty rows cols kvs] is the model of raw::Builder / MapBuilder (Builder.v) with the
+   checksum function as a parameter; here it is the model of the real CheckSummer.  [rows cols] is the
+   node-cache geometry: every geometry is covered.  [input_ok]: keys strictly increasing, keys are
+   byte strings, values < 2^64, and the size bound that keeps the file below 2^64 bytes.
+   The model of Fst::new opens the produced bytes (length >= 36, version 3, the root-address test
+   passes), the model of verify() answers Ok, and len / fst_type / version are what was asked for. *)
+Theorem C08_built_verifies : forall ty rows cols kvs,
+  input_ok kvs -> ty < U64 ->
+  exists bs m, build_map model_masked_crc32c ty rows cols kvs = Ok bs /\
+               fst_new bs = Ok m /\ verify bs m = Ok tt /\
+               Open.m_len m = len kvs /\ Open.m_ty m = ty /\ Open.m_version m = 3 /\ bytes_ok bs.
+Proof. exact built_map_verifies. Qed.
+
+(* sets: repeated keys allowed, len is the number of distinct keys *)
+Theorem C08_built_set_verifies : forall ty rows cols ks,
+  sorted_weak ks = true -> Forall (Forall (fun b => b < 256)) ks -> size_ok_keys ks -> ty < U64 ->
+  exists bs m, build_set model_masked_crc32c ty rows cols ks = Ok bs /\
+               fst_new bs = Ok m /\ verify bs m = Ok tt /\
+               Open.m_len m = len (dedup ks) /\ Open.m_ty m = ty /\ Open.m_version m = 3 /\ bytes_ok bs.
+Proof. exact built_set_verifies. Qed.
+
+(* any sequence of insert / add calls that the call specification accepts *)
+Theorem C08_built_ops_verifies : forall ty rows cols ops,
+  Forall (fun r => r = Ok tt) (spec_calls None ops) ->
+  Forall (fun o => Forall (fun b => b < 256) (op_key o) /\ op_val o < U64) ops ->
+  size_ok_ops ops -> ty < U64 ->
+  exists bs m, build_ops model_masked_crc32c ty rows cols ops = Ok bs /\
+               fst_new bs = Ok m /\ verify bs m = Ok tt /\
+               Open.m_len m = len (spec_content None ops []) /\ Open.m_ty m = ty /\
+               Open.m_version m = 3 /\ bytes_ok bs.
+Proof. exact built_ops_verifies. Qed.
+
+(* ... and after any single-byte change of a built file, open fails or verify fails: never Ok, never a panic *)
+Theorem C08_built_then_corrupted : forall ty rows cols kvs,
+  input_ok kvs -> ty < U64 ->
+  exists bs, build_map model_masked_crc32c ty rows cols kvs = Ok bs /\
+    forall i x, (i < length bs)%nat -> x < 256 -> x <> nth i bs 0 ->
+      (exists e, fst_new (set_nth bs i x) = Err e) \/
+      (exists m' e, fst_new (set_nth bs i x) = Ok m' /\ verify (set_nth bs i x) m' = Err e).
+Proof. exact built_map_then_corrupted. Qed.
+Theorem C08_built_set_then_corrupted : forall ty rows cols ks,
+  sorted_weak ks = true -> Forall (Forall (fun b => b < 256)) ks -> size_ok_keys ks -> ty < U64 ->
+  exists bs, build_set model_masked_crc32c ty rows cols ks = Ok bs /\
+    forall i x, (i < length bs)%nat -> x < 256 -> x <> nth i bs 0 ->
+      (exists e, fst_new (set_nth bs i x) = Err e) \/
+      (exists m' e, fst_new (set_nth bs i x) = Ok m' /\ verify (set_nth bs i x) m' = Err e).
+Proof. exact built_set_then_corrupted. Qed.
+
 (* non-vacuity: the 49 bytes the map builder writes for {"ab" -> 300, "b" -> 1} open and verify in the
    model; their footer is the masked bitwise CRC of the first 45 bytes; version byte 4 gives Version, version
    byte 2 opens as an old file and verify says ChecksumMissing, a changed node byte and a changed
@@ -97,6 +146,17 @@ Proof.
   repeat split; eexists; (split; [vm_compute; reflexivity|vm_compute; reflexivity]).
 Qed.
 
+(* the hypotheses of C08_built_verifies hold for {"ab" -> 300, "b" -> 1}, and the builder model (with a
+   2 x 2 node cache) writes exactly the 49 bytes above, which are the bytes the Rust MapBuilder wrote *)
+Example C08_built_nonvacuous :
+  let kvs := [([97; 98], 300); ([98], 1)] in
+  input_ok kvs /\ build_map model_masked_crc32c 0 2 2 kvs = Ok C08_example_fst.
+Proof.
+  cbv zeta. split; [|vm_compute; reflexivity].
+  split; [reflexivity|]. split; [|vm_compute; reflexivity].
+  repeat constructor.
+Qed.
+
 Check C08_slice16_eq_bitwise : forall prev buf,
   prev < POW32 -> bytes_ok buf -> crc32c_slice16 prev buf = spec_update prev buf.
 Check C08_corruption_never_certified : forall bs m i x,
@@ -114,4 +174,10 @@ Print Assumptions C08_single_byte.
 Print Assumptions C08_burst4.
 Print Assumptions C08_writer_footer_verifies.
 Print Assumptions C08_corruption_never_certified.
+Print Assumptions C08_built_verifies.
+Print Assumptions C08_built_set_verifies.
+Print Assumptions C08_built_ops_verifies.
+Print Assumptions C08_built_then_corrupted.
+Print Assumptions C08_built_set_then_corrupted.
 Print Assumptions C08_nonvacuous.
+Print Assumptions C08_built_nonvacuous.
